@@ -297,8 +297,7 @@ _VARIANT_IDX = {
 
 _WRAPPERS = ('anyhow::Context::context', 'anyhow::Context::with_context', 'core::result::Result::map_err',
              'core::result::Result::map', 'core::option::Option::ok_or', 'core::option::Option::ok_or_else',
-             'core::option::Option::map', 'core::ops::try_trait::Try::branch',
-             'core::result::Result::and_then', 'core::result::Result::or_else')
+             'core::option::Option::map', 'core::ops::try_trait::Try::branch')
 
 
 def _uses_of_local(body, l, from_bb):
